@@ -7108,6 +7108,93 @@ let run_body br =
     | FContinue _ -> Some (ret true)
     | _ -> None)
 
+(** val call_body : z -> n -> bool -> unit m -> unit m **)
+
+let call_body d cc absorb_return m0 s =
+  let (o, s') = m0 s in
+  (match o with
+   | Ok _ -> ((Ok ()), (set_depth d s'))
+   | Fail fl ->
+     (match fl with
+      | FBreak bt -> rt_error bt cc (set_depth d s')
+      | FContinue ct -> rt_error ct cc (set_depth d s')
+      | FReturn ->
+        if absorb_return
+        then ((Ok ()), (set_depth d s'))
+        else ((Fail FReturn), (set_depth d s'))
+      | _ -> ((Fail fl), (set_depth d s'))))
+
+(** val ped_guard : bool -> token -> unit m **)
+
+let ped_guard pedantic t0 =
+  if pedantic then pedantic_error t0 else ret ()
+
+(** val eval_bounds :
+    (node -> result m) -> n -> node list -> z -> dim list m **)
+
+let rec eval_bounds ev c bs total =
+  match bs with
+  | [] -> ret []
+  | lo :: l ->
+    (match l with
+     | [] -> ret []
+     | hi :: rest0 ->
+       bind (ev lo) (fun lr ->
+         if negb (dk_eqb lr.r_type.dk KInt)
+         then rt_error (node_token lo) c
+         else bind (ev hi) (fun hr ->
+                if negb (dk_eqb hr.r_type.dk KInt)
+                then rt_error (node_token hi) c
+                else bind (as_int lr) (fun l0 ->
+                       bind (as_int hr) (fun h ->
+                         if Z.ltb h l0
+                         then rt_error (node_token hi) c
+                         else let n0 =
+                                Z.modulo (Z.add (Z.sub h l0) (Zpos XH)) two64
+                              in
+                              if (||) (Z.eqb n0 Z0)
+                                   (Z.ltb (Z.div max_elements total) n0)
+                              then rt_error (node_token hi) c
+                              else bind
+                                     (eval_bounds ev c rest0 (Z.mul total n0))
+                                     (fun ds -> ret ((l0, h) :: ds)))))))
+
+(** val eval_indices :
+    (node -> result m) -> n -> node list -> dim list -> z list m **)
+
+let rec eval_indices ev c es ds =
+  match es with
+  | [] -> ret []
+  | e :: er ->
+    (match ds with
+     | [] -> ret []
+     | d :: dr ->
+       bind (ev e) (fun ir ->
+         if negb (dk_eqb ir.r_type.dk KInt)
+         then rt_error (node_token e) c
+         else bind (as_int ir) (fun i ->
+                if negb (valid_index d i)
+                then rt_error (node_token e) c
+                else bind (eval_indices ev c er dr) (fun rest0 ->
+                       ret (i :: rest0)))))
+
+(** val repeatM : nat -> 'a1 m -> 'a1 list m **)
+
+let rec repeatM k m0 =
+  match k with
+  | O -> ret []
+  | S k' ->
+    bind m0 (fun x -> bind (repeatM k' m0) (fun rest0 -> ret (x :: rest0)))
+
+(** val if_comp :
+    (node -> result m) -> (node list -> unit m) -> (node option * node list)
+    -> result m option * unit m **)
+
+let if_comp ev rb p0 =
+  ((match fst p0 with
+    | Some e -> Some (ev e)
+    | None -> None), (rb (snd p0)))
+
 (** val tick : limits -> token -> n -> unit m **)
 
 let tick lim t0 c =
@@ -8476,6 +8563,23 @@ let run_builtin n0 fc args =
         crash
           ('b'::('u'::('i'::('l'::('t'::('i'::('n'::(':'::(' '::('a'::('r'::('g'::('u'::('m'::('e'::('n'::('t'::(' '::('m'::('i'::('s'::('m'::('a'::('t'::('c'::('h'::[]))))))))))))))))))))))))))))
 
+(** val builtin_args :
+    token -> n -> dkind list -> result list -> payload list m **)
+
+let rec builtin_args t0 c ks vs =
+  match ks with
+  | [] -> ret []
+  | k :: kr ->
+    (match vs with
+     | [] -> ret []
+     | v :: vr ->
+       bind (implicit_cast (dt_prim k) v) (fun v' ->
+         if negb (dt_is v'.r_type k)
+         then rt_error t0 c
+         else bind (as_payload v') (fun p0 ->
+                bind (builtin_args t0 c kr vr) (fun rest0 ->
+                  ret (p0 :: rest0)))))
+
 (** val hfuel : nat **)
 
 let hfuel =
@@ -8724,13 +8828,12 @@ let run_block pedantic repl lim =
                                   (fun ist ->
                                   if ist
                                   then failm fl
-                                  else if pedantic
-                                       then pedantic_error t0
-                                       else bind
-                                              (new_var f tk.tval v.r_type
-                                                false c) (fun nid ->
-                                              bind (add_var c tk.tval nid)
-                                                (fun _ -> ret nid))))
+                                  else bind (ped_guard pedantic t0) (fun _ ->
+                                         bind
+                                           (new_var f tk.tval v.r_type false
+                                             c) (fun nid ->
+                                           bind (add_var c tk.tval nid)
+                                             (fun _ -> ret nid)))))
                             | _ -> None)
                          | _ -> None)
                       | _ -> None)) (fun id -> store_value t0 c id v)
@@ -8831,41 +8934,8 @@ let run_block pedantic repl lim =
                     match ex with
                     | Some _ -> rt_error t0 c
                     | None -> ret ())) ids) (fun _ ->
-                bind
-                  (let rec go bs total =
-                     match bs with
-                     | [] -> ret []
-                     | lo :: l ->
-                       (match l with
-                        | [] -> ret []
-                        | hi :: rest0 ->
-                          bind (eval f lo c) (fun lr ->
-                            if negb (dt_is lr.r_type KInt)
-                            then rt_error (node_token lo) c
-                            else bind (eval f hi c) (fun hr ->
-                                   if negb (dt_is hr.r_type KInt)
-                                   then rt_error (node_token hi) c
-                                   else bind (as_int lr) (fun l0 ->
-                                          bind (as_int hr) (fun h ->
-                                            if Z.ltb h l0
-                                            then rt_error (node_token hi) c
-                                            else let n1 =
-                                                   Z.modulo
-                                                     (Z.add (Z.sub h l0)
-                                                       (Zpos XH)) two64
-                                                 in
-                                                 if (||) (Z.eqb n1 Z0)
-                                                      (Z.ltb
-                                                        (Z.div max_elements
-                                                          total) n1)
-                                                 then rt_error
-                                                        (node_token hi) c
-                                                 else bind
-                                                        (go rest0
-                                                          (Z.mul total n1))
-                                                        (fun ds ->
-                                                        ret ((l0, h) :: ds)))))))
-                   in go bounds (Zpos XH)) (fun dims ->
+                bind (eval_bounds (fun x -> eval f x c) c bounds (Zpos XH))
+                  (fun dims ->
                   bind
                     (iterM (fun id ->
                       bind (get_type c ty true) (fun dty ->
@@ -8904,10 +8974,8 @@ let run_block pedantic repl lim =
                   (fun _ -> ret res_none))
        | NIf (t0, comps) ->
          if_chain t0 c
-           (map (fun p0 ->
-             ((match fst p0 with
-               | Some e -> Some (eval f e c)
-               | None -> None), (run_block0 f (snd p0) c))) comps)
+           (map (if_comp (fun x -> eval f x c) (fun b -> run_block0 f b c))
+             comps)
        | NCase (_, sel, cases) ->
          bind (eval f sel c) (fun v ->
            case_chain
@@ -9032,13 +9100,12 @@ let run_block pedantic repl lim =
                        (bind (is_identifier_type c tk true) (fun ist ->
                          if ist
                          then failm fl
-                         else if pedantic
-                              then pedantic_error tk
-                              else bind
-                                     (new_var f tk.tval (dt_prim KStr) false
-                                       c) (fun nid ->
-                                     bind (add_var c tk.tval nid) (fun _ ->
-                                       ret nid))))
+                         else bind (ped_guard pedantic tk) (fun _ ->
+                                bind
+                                  (new_var f tk.tval (dt_prim KStr) false c)
+                                  (fun nid ->
+                                  bind (add_var c tk.tval nid) (fun _ ->
+                                    ret nid)))))
                    | _ -> None)
                 | _ -> None)
              | _ -> None)) (fun id ->
@@ -9372,23 +9439,8 @@ let run_block pedantic repl lim =
              bind (get_arr aid) (fun a ->
                if negb (Nat.eqb (length idx) (length a.a_dims))
                then rt_error t0 c
-               else bind
-                      (let rec go es ds =
-                         match es with
-                         | [] -> ret []
-                         | e :: er ->
-                           (match ds with
-                            | [] -> ret []
-                            | d :: dr ->
-                              bind (eval f e c) (fun ir ->
-                                if negb (dt_is ir.r_type KInt)
-                                then rt_error (node_token e) c
-                                else bind (as_int ir) (fun i ->
-                                       if negb (valid_index d i)
-                                       then rt_error (node_token e) c
-                                       else bind (go er dr) (fun rest0 ->
-                                              ret (i :: rest0)))))
-                       in go idx a.a_dims) (fun is ->
+               else bind (eval_indices (fun x -> eval f x c) c idx a.a_dims)
+                      (fun is ->
                       match nth_z a.a_elems (linear is a.a_dims) with
                       | Some eid -> ret (HVar eid)
                       | None ->
@@ -9546,13 +9598,8 @@ let run_block pedantic repl lim =
     | S f ->
       let n0 = total_size dims in
       bind (alloc_cells lim n0 owner) (fun _ ->
-        bind
-          (let rec mk = function
-           | O -> ret []
-           | S k' ->
-             bind (new_var f name ty false owner) (fun id ->
-               bind (mk k') (fun rest0 -> ret (id :: rest0)))
-           in mk (Z.to_nat n0)) (fun elems ->
+        bind (repeatM (Z.to_nat n0) (new_var f name ty false owner))
+          (fun elems ->
           bind fresh (fun aid ->
             bind
               (put_arr aid { a_name = name; a_type = ty; a_dims = dims;
@@ -9617,18 +9664,9 @@ let run_block pedantic repl lim =
                             else ret ()) (fun _ ->
                            bind (modify (set_depth (Z.add d (Zpos XH))))
                              (fun _ ->
-                             bind (fun s ->
-                               let (o, s') = run_block0 f pd.pd_body pc s in
-                               (match o with
-                                | Ok _ -> ((Ok ()), (set_depth d s'))
-                                | Fail fl ->
-                                  (match fl with
-                                   | FBreak bt ->
-                                     rt_error bt pc (set_depth d s')
-                                   | FContinue ct ->
-                                     rt_error ct pc (set_depth d s')
-                                   | _ -> ((Fail fl), (set_depth d s')))))
-                               (fun _ ->
+                             bind
+                               (call_body d pc false
+                                 (run_block0 f pd.pd_body pc)) (fun _ ->
                                bind (upd_ctx c (ctx_with_switch None))
                                  (fun _ -> ret res_none)))))))))
         | None -> not_defined_error t0 c)
@@ -9646,21 +9684,7 @@ let run_block pedantic repl lim =
             then rt_error t0 c
             else bind (new_ctx (Some c) name true false (dt_prim rk))
                    (fun fc ->
-                   bind
-                     (let rec go ks vs =
-                        match ks with
-                        | [] -> ret []
-                        | k :: kr ->
-                          (match vs with
-                           | [] -> ret []
-                           | v :: vr ->
-                             bind (implicit_cast (dt_prim k) v) (fun v' ->
-                               if negb (dt_is v'.r_type k)
-                               then rt_error t0 c
-                               else bind (as_payload v') (fun p1 ->
-                                      bind (go kr vr) (fun rest0 ->
-                                        ret (p1 :: rest0)))))
-                      in go pkinds vals) (fun ps ->
+                   bind (builtin_args t0 c pkinds vals) (fun ps ->
                      bind
                        (upd_ctx c
                          (ctx_with_switch (Some (t0.tline, t0.tcol))))
@@ -9696,20 +9720,9 @@ let run_block pedantic repl lim =
                                else ret ()) (fun _ ->
                               bind (modify (set_depth (Z.add d (Zpos XH))))
                                 (fun _ ->
-                                bind (fun s ->
-                                  let (o, s') = run_block0 f fd.fd_body fc s
-                                  in
-                                  (match o with
-                                   | Ok _ -> ((Ok ()), (set_depth d s'))
-                                   | Fail fl ->
-                                     (match fl with
-                                      | FBreak bt ->
-                                        rt_error bt fc (set_depth d s')
-                                      | FContinue ct ->
-                                        rt_error ct fc (set_depth d s')
-                                      | FReturn -> ((Ok ()), (set_depth d s'))
-                                      | _ -> ((Fail fl), (set_depth d s')))))
-                                  (fun _ ->
+                                bind
+                                  (call_body d fc true
+                                    (run_block0 f fd.fd_body fc)) (fun _ ->
                                   bind (get_ctx fc) (fun fx ->
                                     match fx.x_retval with
                                     | Some r ->
